@@ -34,8 +34,8 @@ def build_world(w, inp, tcomms, S):
     p.uids, p.gids = (1001, 1002, 1003, 1004), (2001, 2002, 2003, 2004)
     p.vol_ctx, p.nonvol_ctx = 71 * S, 72 * S
     p.cmdline = b"x\0"
+    p.threads = {PID: Thread(bytes(tcomms[0]) if tcomms else p.comm, 101 * S, 201 * S)}
     if inp["letter"] != "Z" and len(tcomms) > 1:
-        p.threads = {PID: Thread(bytes(tcomms[0]), p.utime, p.stime)}
         for k in range(2, len(tcomms) + 1):
             p.threads[PID + k - 1] = Thread(bytes(tcomms[k - 1]), (100 + k) * S, (200 + k) * S)
     return p
@@ -82,6 +82,12 @@ def compare(got, out, S, w):
         bad.append("ppid() -> %r, expected %r" % (got["ppid"], out["ppid"]))
     if got["status"] != out["status"]:
         bad.append("status() -> %r, expected %r" % (got["status"], out["status"]))
+    def close(x, num, den):
+        # ticks / tick rate: the correctly rounded quotient while the counter is exactly representable
+        # (below 2**53); above, converting the counter rounds once more and an ulp or two may go
+        if isinstance(x, float) and 0 <= num < 2 ** 53:
+            return x == num / den
+        return functional.close(x, num, den)
     for i, (x, t) in enumerate(zip(got["cpu_times"], out["cpu_times"])):
         if not close(x, t * S, clk):
             bad.append("cpu_times()[%d] -> %r, expected %d/%d" % (i, x, t * S, clk))
